@@ -1,5 +1,239 @@
 import SemVerif.Spec.Preds
 import SemVerif.Inventory
-/-! # Property C09 — theorems (under construction) -/
+import SemVerif.Lemmas.StmtSteps
+/-!
+# Property C09 — result registers are fresh and strictly increasing within a function
+
+For every program (accepted or not) and every function: the registers written by the
+instructions of the function's stack are strictly increasing in emission order and start at 1
+(each root block starts with counter 0).  Proved from the invariant "all live blocks carry the
+same counter, and it bounds every register written so far", which every primitive step keeps.
+-/
 namespace SemVerif
+
+/-- invariant of family T3 for registers -/
+structure RegInv (s : St) : Prop where
+  sync : ∀ b ∈ s.inner, b.reg = s.root.reg
+  sorted : (resultRegs s.root.context).Pairwise (· < ·)
+  bound : ∀ r ∈ resultRegs s.root.context, 1 ≤ r ∧ r ≤ s.root.reg
+
+theorem cur_reg_of_sync {s : St} (h : ∀ b ∈ s.inner, b.reg = s.root.reg) : s.cur.reg = s.root.reg := by
+  unfold St.cur
+  cases hi : s.inner with
+  | nil => rfl
+  | cons b rest => simp [List.headD]; exact h b (by simp [hi])
+
+theorem resultRegs_append (l : List Instr) (i : Instr) :
+    resultRegs (l ++ [i]) = resultRegs l ++ (match i.writes with | some r => [r] | none => []) := by
+  unfold resultRegs
+  rw [List.filterMap_append]
+  cases h : i.writes <;> simp [List.filterMap, h]
+
+theorem regInv_push_none {s : St} (h : RegInv s) (i : Instr) (hw : i.writes = none) : RegInv (s.push i) := by
+  refine ⟨?_, ?_, ?_⟩
+  · intro b hb
+    simp [St.push, St.mapFrames] at hb ⊢
+    obtain ⟨b', hb', rfl⟩ := hb
+    exact h.sync b' hb'
+  · simp [St.push, St.mapFrames, resultRegs_append, hw]; exact h.sorted
+  · simp [St.push, St.mapFrames, resultRegs_append, hw]; exact h.bound
+
+theorem regInv_incReg {s : St} (h : RegInv s) : RegInv s.incReg := by
+  have hc := cur_reg_of_sync h.sync
+  refine ⟨?_, ?_, ?_⟩
+  · intro b hb
+    simp [St.incReg, St.mapFrames] at hb ⊢
+    obtain ⟨b', _, rfl⟩ := hb
+    rfl
+  · simp [St.incReg, St.mapFrames]; exact h.sorted
+  · intro r hr
+    simp [St.incReg, St.mapFrames] at hr ⊢
+    have := h.bound r hr
+    rw [hc]; omega
+
+theorem incReg_curReg {s : St} (h : RegInv s) : s.incReg.curReg = s.root.reg + 1 := by
+  have hc := cur_reg_of_sync h.sync
+  unfold St.curReg St.cur St.incReg St.mapFrames
+  cases hi : s.inner with
+  | nil => simp [List.headD, St.cur, hi]
+  | cons b rest => simp [List.headD]; exact hc
+
+theorem regInv_incEmit {s : St} (h : RegInv s) (i : Instr) (hw : i.writes = some s.incReg.curReg) :
+    RegInv (s.incReg.push i) := by
+  have h1 := regInv_incReg h
+  have hr := incReg_curReg h
+  have hroot : s.incReg.root.reg = s.root.reg + 1 := by
+    have := cur_reg_of_sync h.sync
+    simp [St.incReg, St.mapFrames, this]
+  refine ⟨?_, ?_, ?_⟩
+  · intro b hb
+    simp [St.push, St.mapFrames] at hb ⊢
+    obtain ⟨b', hb', rfl⟩ := hb
+    exact h1.sync b' hb'
+  · have : (s.incReg.push i).root.context = s.incReg.root.context ++ [i] := by simp [St.push, St.mapFrames]
+    rw [this, resultRegs_append, hw]
+    simp only
+    rw [List.pairwise_append]
+    refine ⟨h1.sorted, by simp, ?_⟩
+    intro a ha b hb
+    simp at hb; subst hb
+    have hctx : s.incReg.root.context = s.root.context := by simp [St.incReg, St.mapFrames]
+    rw [hctx] at ha
+    have := h.bound a ha
+    omega
+  · intro r hr'
+    have : (s.incReg.push i).root.context = s.incReg.root.context ++ [i] := by simp [St.push, St.mapFrames]
+    rw [this, resultRegs_append, hw] at hr'
+    have hreg : (s.incReg.push i).root.reg = s.root.reg + 1 := by simp [St.push, St.mapFrames, hroot]
+    rw [hreg]
+    simp at hr'
+    rcases hr' with h2 | h2
+    · have hctx : s.incReg.root.context = s.root.context := by simp [St.incReg, St.mapFrames]
+      rw [hctx] at h2
+      have := h.bound r h2; omega
+    · subst h2; omega
+
+theorem regInv_estep {s s' : St} (h : RegInv s) (st : EStep s s') : RegInv s' := by
+  cases st with
+  | incReg => exact regInv_incReg h
+  | emit i hw _ _ _ => exact regInv_push_none h i hw
+  | incEmit i hw _ _ _ => exact regInv_incEmit h i hw
+  | addErr k v l o => exact ⟨h.sync, h.sorted, h.bound⟩
+  | declare n v i _ hw _ _ _ =>
+    apply regInv_push_none _ i hw
+    refine ⟨?_, ?_, ?_⟩
+    · intro b hb
+      have hroot : ((s.insertValue n v).registerInner v.innerName).root.reg = s.root.reg := by
+        unfold St.registerInner St.mapFrames St.insertValue St.mapCur
+        cases s.inner <;> rfl
+      rw [hroot]
+      unfold St.registerInner St.mapFrames St.insertValue St.mapCur at hb
+      cases hi : s.inner with
+      | nil => rw [hi] at hb; simp at hb
+      | cons b0 rest =>
+        rw [hi] at hb
+        simp at hb
+        rcases hb with rfl | ⟨b', hb', rfl⟩
+        · exact h.sync b0 (by simp [hi])
+        · exact h.sync b' (by simp [hi, hb'])
+    · have : ((s.insertValue n v).registerInner v.innerName).root.context = s.root.context := by
+        unfold St.registerInner St.mapFrames St.insertValue St.mapCur
+        cases s.inner <;> rfl
+      rw [this]; exact h.sorted
+    · have h1 : ((s.insertValue n v).registerInner v.innerName).root.context = s.root.context := by
+        unfold St.registerInner St.mapFrames St.insertValue St.mapCur
+        cases s.inner <;> rfl
+      have h2 : ((s.insertValue n v).registerInner v.innerName).root.reg = s.root.reg := by
+        unfold St.registerInner St.mapFrames St.insertValue St.mapCur
+        cases s.inner <;> rfl
+      rw [h1, h2]; exact h.bound
+  | setPanic site =>
+    unfold St.setPanic
+    cases s.panic <;> exact ⟨h.sync, h.sorted, h.bound⟩
+
+theorem regInv_step {s s' : St} (h : RegInv s) (st : Step s s') : RegInv s' := by
+  cases st with
+  | e he => exact regInv_estep h he
+  | enter =>
+    have hc := cur_reg_of_sync h.sync
+    refine ⟨?_, h.sorted, h.bound⟩
+    intro b hb
+    simp [St.enter] at hb
+    rcases hb with rfl | hb
+    · simp [Block.child, St.enter, hc]
+    · exact h.sync b hb
+  | leave =>
+    unfold St.leave
+    cases hi : s.inner with
+    | nil => simpa [hi] using h
+    | cons b rest =>
+      cases rest with
+      | nil =>
+        simp only
+        exact ⟨by simp, h.sorted, h.bound⟩
+      | cons p rest' =>
+        simp only
+        refine ⟨?_, h.sorted, h.bound⟩
+        intro b' hb'
+        simp at hb'
+        rcases hb' with rfl | hb'
+        · exact h.sync p (by simp [hi])
+        · exact h.sync b' (by simp [hi, hb'])
+  | regLabel l _ =>
+    refine ⟨?_, ?_, ?_⟩
+    · intro b hb
+      simp [St.mapFrames] at hb ⊢
+      obtain ⟨b', hb', rfl⟩ := hb
+      exact h.sync b' hb'
+    · simpa [St.mapFrames] using h.sorted
+    · simpa [St.mapFrames] using h.bound
+  | ctl i hw _ _ => exact regInv_push_none h i hw
+  | ctlVia k i hw _ _ =>
+    unfold St.pushVia
+    apply regInv_push_none _ i hw
+    unfold St.mapCur
+    cases hi : s.inner with
+    | nil => exact ⟨by simp, h.sorted, h.bound⟩
+    | cons b rest =>
+      refine ⟨?_, h.sorted, h.bound⟩
+      intro b' hb'
+      simp at hb'
+      rcases hb' with rfl | hb'
+      · exact h.sync b (by simp [hi])
+      · exact h.sync b' (by simp [hi, hb'])
+  | setReturn =>
+    refine ⟨?_, ?_, ?_⟩
+    · intro b hb
+      simp [St.setReturn, St.mapFrames] at hb ⊢
+      obtain ⟨b', hb', rfl⟩ := hb
+      exact h.sync b' hb'
+    · simpa [St.setReturn, St.mapFrames] using h.sorted
+    · simpa [St.setReturn, St.mapFrames] using h.bound
+
+theorem regInv_steps {s s' : St} (h : RegInv s) (st : Steps s s') : RegInv s' := by
+  induction st with
+  | refl => exact h
+  | tail _ st ih => exact regInv_step ih st
+
+theorem regInv_init : RegInv St.init :=
+  ⟨by simp [St.init], by simp [St.init, Block.fresh, resultRegs], by simp [St.init, Block.fresh, resultRegs]⟩
+
+theorem strictlyIncreasing_of_pairwise : ∀ (l : List Nat), l.Pairwise (· < ·) → strictlyIncreasing l = true
+  | [], _ => rfl
+  | [_], _ => rfl
+  | a :: b :: rest, h => by
+    unfold strictlyIncreasing
+    rw [List.pairwise_cons] at h
+    simp [h.1 b (by simp), strictlyIncreasing_of_pairwise (b :: rest) h.2]
+
+/-- C09 for one function: every function body, analysed under any global tables, has strictly
+increasing result registers starting at 1 -/
+theorem C09_function (g : Globals) (f : FnDecl) : c09Stack (functionBody g f).root.context = true := by
+  have h := regInv_steps regInv_init (steps_functionBody g f)
+  unfold c09Stack
+  simp only [Bool.and_eq_true, List.all_eq_true, decide_eq_true_eq]
+  exact ⟨strictlyIncreasing_of_pairwise _ h.sorted, fun r hr => (h.bound r hr).1⟩
+
+/-- **C09** — for every program, the output predicate of the property holds on the model's result:
+no function has two instructions writing the same register or a non-increasing result register -/
+theorem C09 (p : Program) : P_C09 (run p) = [] := by
+  unfold P_C09 run
+  rw [List.map_eq_nil_iff, List.filter_eq_nil_iff]
+  intro x hx
+  obtain ⟨b, i⟩ := x
+  have hb := List.mem_zipIdx hx
+  have : b ∈ List.map (fun s => s.root) (List.map (functionBody (pass2 p (pass1 p GState.init)).globals) p.fns) := by
+    have := hb.2.2
+    simp only at this
+    rw [this]; exact List.getElem_mem _
+  simp only [List.mem_map] at this
+  obtain ⟨s, ⟨f, _, rfl⟩, rfl⟩ := this
+  simp [C09_function]
+
+/-- non-vacuity: a concrete function with nested blocks whose registers are 1,2,3 -/
+example : resultRegs (functionBody ⟨fun _ => none, fun _ => none, fun _ => none⟩
+    ⟨['f'], [(['x'], .prim .u8)], .prim .u8,
+     [.ifS (.mk (.single (.mk (.var ['x']) none)) (.ifb [.letB ⟨['y'], false, none, .mk (.var ['x']) none⟩]) none none),
+      .ret (.mk (.var ['x']) none)]⟩).root.context = [1, 2, 3] := by decide +kernel
+
 end SemVerif
